@@ -457,6 +457,11 @@ def conclude(R, prop, tier, seed, hs, smt_obls, smt_out, wall, partial):
         print(l, flush=True)
     for h, r in inconclusive:
         log("INCONCLUSIVE: %s %s" % (h.fn if h else r.get("id", "smt"), r.get("status", r.get("outcome"))))
+        for f in (r.get("failed") or [])[:4]:
+            log("  failed check: %s @ %s" % (f["desc"], f["loc"]))
+        for c in (r.get("covers") or []):
+            if c["status"] != "SATISFIED":
+                log("  cover not satisfied: %s (%s)" % (c["desc"], c["status"]))
         if r.get("error"):
             log("  " + r["error"][-800:].replace("\n", "\n  "))
     # ---- evidence
